@@ -84,6 +84,10 @@ def literals(rng, n_random, thorough):
     for z in (400, 5000, 100003):
         out += ["0." + "0" * z + "1234e%d" % z, "25" + "0" * z + "e-%d" % z, "-0." + "0" * z + "5e+%d" % (z + 1), "1" + "0" * z + "." + "0" * 7 + "e-%d" % (z - 2),
                 "0." + "0" * z + "1234e%d" % (z - 30), "7" * min(z, 800) + "e-%d" % (min(z, 800) - 10)]
+    # exponent fields near INT_MAX, UINT_MAX and beyond combined with long fractions / integer parts (the sum of the written exponent and the
+    # shift implied by the mantissa must not wrap): the value is 0 or infinite
+    for ex in (2147483629, 2147483633, 2147483639, 2147483647, 2147483648, 4294967295, 4294967296, 999999999, 1000000000, 99999999999):
+        out += ["0.1234567890123456e-%d" % ex, "-0.0000000000000001e-%d" % ex, "1" * 30 + "e%d" % ex, "9" * 45 + ".5e+%d" % ex, "1e-%d" % ex, "1e%d" % ex]
     # digit strings at the capacity of 64-, 63-, 53- and 32-bit accumulators (and one tenth of it), with the decimal point at
     # every position, every following digit, with and without exponent
     for base in (2 ** 64 - 1, 2 ** 64, (2 ** 64 - 1) // 10, 2 ** 63 - 1, 2 ** 63, (2 ** 63 - 1) // 10, 2 ** 53, 2 ** 53 + 1, 2 ** 32 - 1, (2 ** 32 - 1) // 10, 10 ** 19 - 1, 10 ** 18):
